@@ -7,6 +7,7 @@ mod enc;
 mod gen;
 mod oracle;
 mod props;
+mod sched;
 mod util;
 
 use crate::core::{Ctx, Known, Tier};
